@@ -534,12 +534,10 @@ def invLoop (s : State) : Nat → Bytes → Nat → List Effect → Nat → HOut
       if leVal (item.take 4) ≠ 1 then invLoop s k r (used + 36) fx pending      -- not InvTypeTx
       else
         let h := item.drop 4
-        if s.txSeen.contains h then invLoop s k r (used + 36) (fx ++ [.addTxID h]) pending
-        else
-          let s' := { s with txSeen := h :: s.txSeen }
-          if pending ≥ 50000 then
-            invLoop s' k r (used + 36) (fx ++ [.addTxID h, .send "getdata" pending]) 1
-          else invLoop s' k r (used + 36) (fx ++ [.addTxID h]) (pending + 1)
+        if !(txAnnounce s h).2 then invLoop (txAnnounce s h).1 k r (used + 36) (fx ++ [.addTxID h]) pending
+        else if pending ≥ 50000 then
+          invLoop (txAnnounce s h).1 k r (used + 36) (fx ++ [.addTxID h, .send "getdata" pending]) 1
+        else invLoop (txAnnounce s h).1 k r (used + 36) (fx ++ [.addTxID h]) (pending + 1)
 
 /-- `handleInventory` never looks at header.Length and has no deferred discard. -/
 def hInventory (s : State) (inp : Bytes) : HOut :=
@@ -559,8 +557,7 @@ def hTx (e : Env) (s : State) (L : Nat) (classic : Bool) (ck inp : Bytes) : HOut
     | .oom => { st := s, res := .panic }
     | .ok rest =>
       let txid := e.hash (p.take (p.length - rest.length))
-      { st := { s with txSeen := if s.txSeen.contains txid then s.txSeen else txid :: s.txSeen },
-        fx := [.addTx txid], used := L }
+      { st := txDeliver s txid, fx := [.addTx txid], used := L }
 
 /-- the transactions of a requested block, `tx.Deserialize` one by one from the stream. The model
     only needs how many bytes they take and whether they parse; it is applied to the bytes that
